@@ -68,6 +68,10 @@ def session_infos(ctx, specs, label):
         e["xfers"] = xf
         e["maxpkt"] = max([p["size"] for p in e["pkts"]] + [0])
         e["accepted"] = [a["o"] for a in e["adds"] if a["res"] == "ok"]
+        # rank of the TOI of every object (the registry of failed objects evicts the smallest TOI first)
+        tois = {a["o"]: int(a["toix"], 16) for a in e["adds"] if a["res"] == "ok" and a.get("toix")}
+        order = sorted(tois, key=lambda o: tois[o])
+        e["toinum"] = [(order.index(o + 1) + 1) if (o + 1) in tois else 0 for o in range(nobj)]
         e["cfg"].setdefault("tsi", 1)
         e["cfg"].setdefault("par", 0)
         infos.append(e)
@@ -187,6 +191,17 @@ def _one_chunk(ctx, idx, chunk, label, specs_file, infos_by_sid, monitor, limit_
     stats = _post_rx(raw, tr, [infos_by_sid[s] for s in used if s in infos_by_sid], intern, fams)
     res = tlc(ctx, monitor, workers=1, trace=tr, timeout=900, env={"JAVA_TOOL_OPTIONS": JAVA_OPTS_TRACE + " -Xmx4g"})
     tlc_must_pass(ctx, res, "%s on %s chunk %d" % (monitor, label, idx))
+    if getattr(ctx, "rx_conformance_spec", None) and monitor == "Mon_Receiver":
+        # binding evidence: the same trace against the mechanism specification Receiver.tla
+        cres = tlc(ctx, ctx.rx_conformance_spec, workers=1, trace=tr, timeout=900, env={"JAVA_TOOL_OPTIONS": JAVA_OPTS_TRACE + " -Xmx4g"})
+        conf = {"ok": cres["ok"], "match": len(cres["tagged"].get("MATCH", [])), "unsupported": len(cres["tagged"].get("UNSUPPORTED", [])),
+                "drift": cres["tagged"].get("DRIFT", []), "why": {}}
+        for u in cres["tagged"].get("UNSUPPORTED", []):
+            w = u.get("why", "?") if isinstance(u, dict) else "?"
+            conf["why"][w] = conf["why"].get(w, 0) + 1
+        if not cres["ok"]:
+            conf["error"] = "\n".join(l for l in cres["stdout"].splitlines() if "rror" in l or "Attempted" in l)[:600]
+        stats["conf"] = conf
     if os.environ.get("VERIF_KEEP_WORK") != "1":
         for p in (inp, raw, tr):
             os.remove(p)
@@ -220,6 +235,23 @@ def run_rx(ctx, specs, infos, behs, label, monitor="Mon_Receiver", chunk_size=40
             tot["hangs"] += len(hangs)
             for k, v in stats["kinds"].items():
                 tot["kinds"][k] = tot["kinds"].get(k, 0) + v
+            if stats.get("conf"):
+                c = ctx.conformance.setdefault(label, {"matched": 0, "unsupported": 0, "drifted": 0, "first_drifts": [], "errors": []})
+                c["matched"] += stats["conf"]["match"]
+                c["unsupported"] += stats["conf"]["unsupported"]
+                c["drifted"] += len(stats["conf"]["drift"])
+                for w, n in stats["conf"]["why"].items():
+                    c.setdefault("unsupported_why", {})
+                    c["unsupported_why"][w] = c["unsupported_why"].get(w, 0) + n
+                for d in stats["conf"]["drift"][:3]:
+                    if len(c["first_drifts"]) < 5:
+                        dd = dict(d) if isinstance(d, dict) else {"raw": str(d)[:300]}
+                        b = behs[dd["beh"]] if isinstance(dd.get("beh"), int) and 0 <= dd["beh"] < len(behs) else None
+                        dd["behaviour"] = b
+                        dd["session"] = specs[b.get("sid", 0)] if b else None
+                        c["first_drifts"].append(dd)
+                if stats["conf"].get("error"):
+                    c["errors"].append(stats["conf"]["error"])
             for h in hangs:
                 ctx.violations.append({"property": "C04", "what": "receiver-call-did-not-return-in-bounded-time", "beh": h["beh"],
                                        "line": h["op"], "witness": h, "behaviour": behs[h["beh"]] if 0 <= h["beh"] < len(behs) else None,
